@@ -180,6 +180,61 @@ def run_cases(run, cases, label, use_oracle=True):
     return res
 
 
+# ---------------------------------------------------------------- _template_to_body (Model/Body.v)
+BODY_ATOMS = ["<!--", "-->", "<noinclude>", "</noinclude>", "<includeonly>", "</includeonly>", "<onlyinclude>", "</onlyinclude>",
+              "<onlyinclude/>", "<noinclude/>", "<includeonly/>", "<NoInclude >", "</NOINCLUDE\t>", "<IncludeOnly\n>", "< includeonly>",
+              "</ includeonly >", "<includeonly />", "< / includeonly / >", "<OnlyInclude >", "</onlyinclude >", "<onlyinclude />",
+              "<noinclude", "<!-", "--", ">", "<", "/", " ", "\n", "a", "b", "{{{1}}}", "{{t}}", "x<y", "-"]
+
+
+def gen_body_text(rng):
+    if rng.random() < 0.5:
+        # mostly well-formed arrangements
+        parts = []
+        for _ in range(rng.randint(1, 6)):
+            k = rng.random()
+            inner = "".join(rng.choice(["a", "b", " ", "\n", "{{{1}}}", "-", ">", "x"]) for _ in range(rng.randint(0, 4)))
+            case = lambda t: "".join(ch.upper() if rng.random() < 0.2 else ch for ch in t)
+            ws = lambda: rng.choice(["", "", " ", "\n"])
+            if k < 0.25:
+                parts.append(inner)
+            elif k < 0.4:
+                parts.append("<!--" + inner + "-->")
+            elif k < 0.6:
+                parts.append("<" + case("noinclude") + ws() + ">" + inner + "</" + case("noinclude") + ws() + ">")
+            elif k < 0.8:
+                parts.append("<" + case("includeonly") + ws() + ">" + inner + "</" + case("includeonly") + ws() + ">")
+            elif k < 0.95:
+                parts.append("<" + case("onlyinclude") + ws() + ">" + inner + rng.choice(["", "<!--c-->", "<noinclude>n</noinclude>"])
+                             + "</" + case("onlyinclude") + ws() + ">")
+            else:
+                parts.append(rng.choice(["<noinclude>", "<!--", "<onlyinclude>", "</noinclude>", "-->"]) + inner)
+        return "".join(parts)
+    return "".join(rng.choice(BODY_ATOMS) for _ in range(rng.randint(1, 9)))
+
+
+def check_template_body(run, rng, quick):
+    texts = [gen_body_text(rng) for _ in range(1500 if quick else 40000)]
+    res = lib.run_impl("template_body", [{"texts": texts[i:i + 500]} for i in range(0, len(texts), 500)], shards=lib.NCPU)
+    outs = []
+    for r in res:
+        if r.get("outcome") != "ok":
+            run.correspondence_break("_template_to_body could not be run", None, error=str(r)[:500])
+            return
+        outs += r["outs"]
+    cases = []
+    for t, o in zip(texts, outs):
+        run.count(["body", t], "<" in t, "template-body")
+        cases.append("(%s, %s)" % (cstr(t), cstr(o)))
+    bad, errs = lib.coq_eval_failing("c04b", ["Base.Str", "Model.Body"], "str * str", cases,
+                                     "fun '(t, o) => str_eqb (template_to_body t) o", chunk=300)
+    for e in errs:
+        run.correspondence_break("model evaluation failed (template body)", None, error=e)
+    for b in bad:
+        run.correspondence_break("Model.Body.template_to_body disagrees with Wtp._template_to_body",
+                                 {"text": texts[b]}, impl_out=outs[b])
+
+
 def run(run):
     run.rule = ("acyclic template libraries (<=5 templates, bodies from the expansion grammar: text atoms with interior/"
                 "leading/trailing blanks and newlines, {{{n}}}, {{{n|default}}}, positional/named/numeric-named/duplicate "
@@ -199,9 +254,10 @@ def run(run):
     for k, v in errs.items():
         run.correspondence_break("translator %s failed" % k, None, error=v)
     run.prove()
-    rc, out = lib.coq_make(["Gen/GenData.vo", "Model/Expand.vo"])
+    rc, out = lib.coq_make(["Gen/GenData.vo", "Model/Expand.vo", "Model/Body.vo"])
     if rc != 0:
-        run.correspondence_break("Gen/GenData.v or Model/Expand.v does not build", None, error=out[-1500:])
+        run.correspondence_break("Gen/GenData.v, Model/Expand.v or Model/Body.v does not build", None, error=out[-1500:])
+    check_template_body(run, run.rng, run.tier == "quick")
     n = 700 if run.tier == "quick" else 20000
     cases = [make_case(run.rng) for _ in range(n)]
     run_cases(run, cases, "acyclic")
